@@ -616,12 +616,13 @@ func (k *c02Checker) fileMulti() {
 	}
 }
 
-// c02TempDir: a private directory (under TMPDIR) for the file-layer cases of one task.
+// c02TempDir: a private directory (under the check's scratch directory, which ./check removes) for the
+// file-layer cases of one task.
 var c02TempDir string
 
 func c02Temp(c *mc.Ctx) string {
 	if c02TempDir == "" {
-		d, err := os.MkdirTemp("", "c02-files-")
+		d, err := os.MkdirTemp(mc.ScratchDir, "c02-files-")
 		if err != nil {
 			c.Fatal("cannot create a temporary directory: %v", err)
 			return ""
